@@ -62,12 +62,13 @@ St == [kind |-> kind, ditems |-> ditems, litems |-> litems, parent |-> parent,
 Alive(s) == {n \in Nodes : s.kind[n] # "free"}
 FreeSet(s) == {n \in Nodes : s.kind[n] = "free"}
 MinOf(S) == CHOOSE x \in S : \A y \in S : x <= y
-IsDictLike(s, n) == s.kind[n] \in {"dict", "obj", "objb"}
-IsObj(s, n) == s.kind[n] \in {"obj", "objb"}
+IsDictLike(s, n) == s.kind[n] \in {"dict", "obj", "objb", "objc"}
+IsObj(s, n) == s.kind[n] \in {"obj", "objb", "objc"}
 PH == 150                        \* a search-space placeholder leaf (pg.oneof)
 RF == 160                        \* an explicit reference leaf (pg.Ref to a shared non-symbolic object)
 Opaque == {PH, RF}               \* leaves that are symbolic objects of their own: every write stores a NEW object
-\* test classes: A(x = None, y = None); B(z required -- no default, w = None), created with B.partial()
+\* test classes: A(x = None, y = None); B(z required -- no default, w = None), created with B.partial();
+\* C(m : A = A(), w = None): an object-typed field with a default object (field m always holds an A node and is never written)
 DefaultOf(k, key) == IF k = "objb" /\ key = 1 THEN MISSING ELSE PNONE
 
 Slot(s, n) == IF IsDictLike(s, n) THEN {<<s.ditems[n][i][1], s.ditems[n][i][2]>> : i \in 1..Len(s.ditems[n])}
@@ -114,7 +115,7 @@ Reindex(s, n) ==
 
 NewNode(s, r, k, par, key) ==
   [s EXCEPT !.kind[r] = k, !.ditems[r] = <<>>, !.litems[r] = <<>>, !.parent[r] = par, !.pkey[r] = key,
-            !.sealed[r] = FALSE, !.accw[r] = TRUE, !.subs[r] = (k \in {"obj", "objb"})]
+            !.sealed[r] = FALSE, !.accw[r] = TRUE, !.subs[r] = (k \in {"obj", "objb", "objc"})]
 
 \* Symbolic clone of the subtree at m into free ids.  Every symbolic node is copied (deep and
 \* shallow clone differ only in leaf objects, which are values here).  Flags: Dict keeps
@@ -150,7 +151,7 @@ CloneIntoS(s, m, inh) ==       \* returns [s, root]; caller guarantees enough fr
        IN [s |-> F[Len(s.litems[m])], root |-> r]
 CloneInto(s, m) == CloneIntoS(s, m, FALSE)
 
-ShapeNeed(vd) == IF vd \in {200, 201, 210, 220, 221} THEN 1 ELSE IF vd = 211 THEN 2 ELSE 0
+ShapeNeed(vd) == IF vd \in {200, 201, 210, 220, 221} THEN 1 ELSE IF vd \in {211, 222} THEN 2 ELSE 0
 
 \* does storing existing node vd under (holder, key) copy it?  `ins` = the write is an insertion.
 MustCopy(s, holder, key, vd, ins) ==
@@ -160,7 +161,7 @@ MustCopy(s, holder, key, vd, ins) ==
 
 \* Turn a value descriptor into a stored value under (holder, key): [ok, s, v]
 Formalize(s, holder, key, vd, ins) ==
-  IF ~IsRef(vd) /\ vd \notin {200, 201, 210, 211, 220, 221} THEN [ok |-> TRUE, s |-> s, v |-> vd]
+  IF ~IsRef(vd) /\ vd \notin {200, 201, 210, 211, 220, 221, 222} THEN [ok |-> TRUE, s |-> s, v |-> vd]
   ELSE IF ~IsRef(vd) THEN
     IF Cardinality(FreeSet(s)) < ShapeNeed(vd) THEN [ok |-> FALSE, s |-> s, v |-> vd]
     ELSE LET r == MinOf(FreeSet(s)) IN
@@ -173,6 +174,12 @@ Formalize(s, holder, key, vd, ins) ==
         [] vd = 220 -> [ok |-> TRUE,
                         s |-> [NewNode(s, r, "obj", holder, key) EXCEPT !.ditems[r] = << <<1, PNONE>>, <<2, PNONE>> >>],
                         v |-> r]
+        [] vd = 222 -> LET s1 == NewNode(s, r, "objc", holder, key)
+                           c == MinOf(FreeSet(s1))
+                       IN [ok |-> TRUE,
+                           s |-> [NewNode(s1, c, "obj", r, 1) EXCEPT !.ditems[c] = << <<1, PNONE>>, <<2, PNONE>> >>,
+                                                                     !.ditems[r] = << <<1, c>>, <<2, PNONE>> >>],
+                           v |-> r]
         [] vd = 221 -> [ok |-> TRUE,
                         s |-> [NewNode(s, r, "objb", holder, key) EXCEPT !.ditems[r] = << <<1, MISSING>>, <<2, PNONE>> >>],
                         v |-> r]
@@ -193,7 +200,8 @@ NoUpd == <<>>
 WriteD(s, n, k, vd) ==
   LET i == KeyIdx(s, n, k)
       old == IF i = 0 THEN MISSING ELSE s.ditems[n][i][2]
-  IN IF old = vd /\ IsRef(vd) THEN [ok |-> TRUE, s |-> s, ups |-> NoUpd]        \* same object: no update
+  IN IF s.kind[n] = "objc" /\ k = 1 THEN [ok |-> FALSE, s |-> s, ups |-> NoUpd]   \* the typed field of C is not written
+     ELSE IF old = vd /\ IsRef(vd) THEN [ok |-> TRUE, s |-> s, ups |-> NoUpd]        \* same object: no update
      ELSE IF vd = MISSING THEN
        IF i = 0 THEN [ok |-> TRUE, s |-> s, ups |-> NoUpd]
        ELSE IF IsObj(s, n) THEN                                                 \* field reset to its default
